@@ -264,6 +264,13 @@ func e2eCorpus() []e2eCase {
 		{Name: "path-mutations", Pkgs: []e2ePkg{base}, Users: []e2eUser{{"build", 1000, 1000}}, Groups: []e2eUser{{"build", 1000, 1000}},
 			Paths: []e2ePath{{Path: "/home/build", Type: "directory", UID: 1000, GID: 1000, Perm: 0o750}, {Path: "/etc/motd", Type: "empty-file", Perm: 0o644},
 				{Path: "/usr/bin/t2", Type: "symlink", Source: "/usr/bin/tool"}, {Path: "/var/empty", Type: "permissions", UID: 1000, GID: 1000, Perm: 0o700}}},
+		func() e2eCase {
+			p := e2ePkg{Name: "links", Files: []e2eFile{ed("l", 0o755)}}
+			for i, t := range linkTargets {
+				p.Files = append(p.Files, es(fmt.Sprintf("l/s%02d", i), t))
+			}
+			return e2eCase{Name: "symlink-targets", Pkgs: []e2ePkg{base, p}, Paths: []e2ePath{{Path: "/l/m", Type: "symlink", Source: "../usr/./bin//tool"}}}
+		}(),
 		{Name: "two-packages-same-directories", Pkgs: []e2ePkg{base, {Name: "lib", Files: []e2eFile{ed("usr", 0o755), ed("usr/lib", 0o755), ef("usr/lib/libz.so.1.3", 0o755, 1500),
 			es("usr/lib/libz.so.1", "libz.so.1.3"), ed("etc", 0o755), ef("etc/ld.conf", 0o644, 5)}}}},
 	}
@@ -315,7 +322,14 @@ func e2eGen(r *gal.Rand, i int) e2eCase {
 				regs = append(regs, pth)
 			case k < 9:
 				f.Type, f.Mode, f.Xattrs, f.UID, f.GID = "sym", 0o777, nil, 0, 0
-				f.Target = gal.Pick(r, []string{"/bin/busybox", "../x", "x", "a b"})
+				switch r.Intn(3) {
+				case 0:
+					f.Target = gal.Pick(r, []string{"/bin/busybox", "../x", "x", "a b"})
+				case 1:
+					f.Target = gal.Pick(r, linkTargets)
+				default:
+					f.Target = genTarget(r)
+				}
 			default:
 				if len(regs) == 0 {
 					used[pth] = false
